@@ -160,18 +160,18 @@ def digest_setup(eng):
     eng.spec_env['READ'] = Builtin('READ', lambda e, a, k, n: Obj('AlignedSegment', {'query_name': a[0], '_vc_tags': {}, '_vc_closed': True}))
 
 
-def digest_unit(order):
-    first, second = ('NAME_A', 'NAME_B') if order == 'single-cell then bulk' else ('NAME_B', 'NAME_A')
+def digest_unit(order, absent_first=False):
+    first, second = ('NAME_A', 'NAME_B') if order.startswith('single-cell then bulk') else ('NAME_B', 'NAME_A')
     return Contract(
         PROP, FU + '::QueryNameFlagger', name='QueryNameFlagger.digest[%s]' % order,
         harness='''
 q = QueryNameFlagger()
 r1 = READ(%s)
 r2 = READ(%s)
-q.digest([r1, None])
+q.digest(%s)
 q.digest([r2])
 return (r1, r2) if %r == 'NAME_A' else (r2, r1)
-''' % (first, second, first),
+''' % (first, second, '[None, r1]' if absent_first else '[r1, None]', first),
         params={}, setup=digest_setup,
         ensures={
             # single-cell read: every encoded field is restored
@@ -195,7 +195,9 @@ return (r1, r2) if %r == 'NAME_A' else (r2, r1)
     )
 
 
-UNITS += [digest_unit('single-cell then bulk'), digest_unit('bulk then single-cell')]
+# a fragment whose first mate is absent (None, R2): the present mate is still decoded
+UNITS += [digest_unit('single-cell then bulk'), digest_unit('bulk then single-cell'),
+          digest_unit('single-cell then bulk; first mate absent', absent_first=True)]
 
 
 def digest_replay(order):
@@ -216,8 +218,8 @@ def digest_replay(order):
             return s
         ra, rb = seg(A, SC_TAGS), seg(B, BULK_TAGS)
         q = cls()
-        for r in ([ra, rb] if order == 'single-cell then bulk' else [rb, ra]):
-            q.digest([r, None])
+        for r in ([ra, rb] if order.startswith('single-cell then bulk') else [rb, ra]):
+            q.digest([None, r] if order.endswith('first mate absent') else [r, None])
         got_a, got_b = dict(ra.get_tags()), dict(rb.get_tags())
         failed = []
         if got_b.get('SM') != B['LY'] + '_BULK':
@@ -238,6 +240,6 @@ def digest_replay(order):
     return replay
 
 
-for _u in UNITS[-2:]:
+for _u in UNITS[-3:]:
     _u.replay = digest_replay(_u.name.split('[')[1].rstrip(']'))
 roundtrip.replay = lambda inputs, clause: {'status': 'no-input', 'note': 'structural round trip: see digest replay for the real-code run'}
